@@ -84,9 +84,13 @@ type core struct {
 	createRelease  chan struct{}
 	vers2          map[string]bool // versions written by calls of phase 2 (not the tenure under study)
 	hardOdd        []string        // things no delay can cause
-	contFault      bool            // the next Create of contender 2 fails with a transient error
-	waited         bool            // scenario "waited": the acquisition of the holder is waiting for another Locker
-	shortLease     string          // scenario "waited": the created record was short of call time + lease
+	delFault       bool            // the Delete of the holder's Unlock fails with a transient error (request lost)
+	recOff         bool            // ... after which nothing is recorded any more: the trace ends with the Unlock
+	delFailedAt    int64
+	lateCAS        int
+	contFault      bool   // the next Create of contender 2 fails with a transient error
+	waited         bool   // scenario "waited": the acquisition of the holder is waiting for another Locker
+	shortLease     string // scenario "waited": the created record was short of call time + lease
 
 	// scenario (viii): BEFORE the tenure under study the same Locker object held an earlier tenure ("prehistory",
 	// passed through unrecorded) that was unlocked while its preParkK-th renewal call was in flight (applied by the
@@ -112,6 +116,9 @@ func (c *core) ts() int64 { return int64(time.Since(c.base)) }
 
 // add appends an event; must be called with c.mu held
 func (c *core) add(e event) {
+	if c.recOff {
+		return
+	}
 	e.seq = len(c.evs)
 	c.evs = append(c.evs, e)
 }
@@ -272,6 +279,18 @@ func (v holderView) CasByVersion(ctx context.Context, r kvs.Record) (kvs.Record,
 		c.mu.Unlock()
 		return kvs.Record{}, errInjected
 	}
+	if c.recOff {
+		// Unlock has returned (its Delete was lost): a renewal that was in flight may still arrive, but the chain was
+		// cancelled by Unlock - calls a whole lease later were armed after it
+		if c.ts() > c.delFailedAt+int64(c.ttl) {
+			c.lateCAS++
+			if c.lateCAS == 2 {
+				c.hardOdd = append(c.hardOdd, fmt.Sprintf("renewal calls of a tenure keep reaching the storage more than a lease (%v) after its Unlock returned (the Delete of that Unlock had failed with a transient error): the renewal was not cancelled, the lock is held by nobody and stays taken", c.ttl))
+			}
+		}
+		c.mu.Unlock()
+		return c.inner.CasByVersion(ctx, r)
+	}
 	if c.pre {
 		// a renewal of the earlier tenure: passed through; the preParkK-th is applied and its answer held back
 		c.preCAS++
@@ -389,6 +408,10 @@ func (v holderView) Delete(ctx context.Context, key string) error {
 	}
 	if c.pre {
 		return c.inner.Delete(ctx, key)
+	}
+	if c.delFault {
+		c.delFault, c.recOff, c.delFailedAt = false, true, c.ts()
+		return errInjected
 	}
 	if c.phase2 {
 		// Unlock of the second tenure on the holder's Locker
